@@ -75,7 +75,13 @@ def job_merge(seed, nb=3):
             this = {'processed_some_frames_': False, 'nframes_': SInt(n0), 'avg_vol_': 'AVGVOL', 'interactions_': [{'first': 'A', 'second': i1}, {'first': 'B', 'second': i2}], 'do_imc_': doimc,
                     'groups_': [{'first': 'g', 'second': grp}], 'block_length_': blk, 'nblock_': 0, 'extension_': 'new'}
             y0 = {'A': [e.v for e in a1.tab['y'].flat()], 'B': [e.v for e in a2.tab['y'].flat()]}
-            cb = dict(table_cb(), **{'decide': P.decide, 'Process': lambda o, v: ev.append(('vol', v)), 'lexical_cast': lambda *a: 'n',
+            def isZero(m, *a):
+                # Eigen isZero(): all coefficients (approximately) zero; on the true branch the vector IS zero from here on
+                z = P.decide(sp.And(*[sp.Eq(e.v, 0) for e in m.flat()]))
+                if z:
+                    m.assign(Mx(m.r, m.c))
+                return z
+            cb = dict(table_cb(), **{'decide': P.decide, 'isZero': isZero, 'Process': lambda o, v: ev.append(('vol', v)), 'lexical_cast': lambda *a: 'n',
                                      'WriteDist': lambda o, sfx: ev.append(('WriteDist',)), 'WriteIMCData': lambda o, sfx: ev.append(('WriteIMCData',)), 'WriteIMCBlock': lambda o, sfx: ev.append(('WriteIMCBlock',)),
                                      'setZero': lambda m: (m.__setitem__('zero', True) if isinstance(m, dict) else m.assign(Mx(m.r, m.c)))})
             ex = Exec({'worker_': worker}, cb, {k: v for k, v in fns.items() if k in ('DoCorrelations', 'ClearAverages')}, this)
